@@ -9,4 +9,4 @@ Extraction "Extract/xmlns_model.ml"
   XTreeModel.parse_tokens XTreeModel.parse_raw XTreeModel.terrs XTreeModel.tpanic
   XSerModel.ser_doc XSerModel.render XSerModel.serialize XSerModel.item_rtoken
   XSerModel.lex_text XSerModel.lex_attr_value XSerModel.escape XSerModel.decl_rawattr XSerModel.attr_rawattr
-  XSerSpec.ser_clean XSerSpec.adequate XSerSpec.roundtrip_tok XRoundTrip.rt_hyps.
+  XSerSpec.forest_cons XSerSpec.adequate XSerSpec.roundtrip_tok XRoundTrip.rt_hyps.
